@@ -13,7 +13,7 @@ for p in props:
     if pid not in PROPS:
         continue
     pr = PROPS[pid]
-    fam = pr.get("family", pr.get("custom", ""))
+    fam = pr.get("family") or " + ".join(pr.get("families", [])) or pr.get("custom", "")
     checks.append({
         "property_id": pid,
         "quick_cmd": f"python3 check.py {pid} --tier quick",
